@@ -19,6 +19,7 @@ import (
 	"go/ast"
 	"go/token"
 	"go/types"
+	"golang.org/x/tools/go/ast/astutil"
 	"strings"
 
 	"golang.org/x/tools/go/packages"
@@ -64,7 +65,6 @@ func buildCaseTags(p *Prog) {
 }
 
 func buildKeySubst(p *Prog) {
-	buildCaseTags(p)
 	declOf := map[*types.Func]*ast.FuncDecl{}
 	var pkgs []*packages.Package
 	for _, pk := range p.Pkgs {
@@ -82,6 +82,8 @@ func buildKeySubst(p *Prog) {
 			}
 		}
 	}
+	inlineAccessors(p, pkgs, declOf)
+	buildCaseTags(p)
 	for _, pk := range pkgs {
 		info := pk.TypesInfo
 		for _, f := range pk.Syntax {
@@ -592,4 +594,143 @@ func cloneWithSubst(info *types.Info, e ast.Expr, env map[types.Object]ast.Expr)
 		return nil
 	}
 	return c
+}
+
+// inlinedAway: unexported single-expression helpers every use of which was inlined by
+// inlineAccessors. They are dead code in the analysed program: the iteration helpers
+// (Methods, AllFuncDecls) skip them, so that an obligation about what such a helper does is judged
+// where it is used - e.g. an accessor `peek(n) = d.src[d.offset:d.offset+n]` is bounds-checked at
+// each call, under the guard that dominates that call, not on its own.
+var inlinedAway = map[*ast.FuncDecl]bool{}
+
+// noInlinePkgs: packages whose helper calls are left as written, one reason each.
+var noInlinePkgs = map[string]string{
+	hivePrefix + "runtime/event": "generated code: every member of the Trigger family is compared with the template, which spells the helper calls",
+}
+
+// inlineAccessors rewrites the loaded syntax trees (in memory only): a call - not a statement of
+// its own, not started with go/defer - of an UNEXPORTED function or method of the same package
+// whose body is a single `return <expression>` is replaced by that expression with the receiver
+// and the parameters replaced by the receiver expression and the arguments, which must be pure.
+// This is exact inlining: the expression is evaluated once, at the point of the call. Repeated to
+// a fixpoint (helpers that use helpers). All AST- and CFG-based rules thereby see the same program
+// whether a predicate, accessor or key construction is written inline or behind such a helper.
+func inlineAccessors(p *Prog, pkgs []*packages.Package, declOf map[*types.Func]*ast.FuncDecl) {
+	candidates := map[*ast.FuncDecl]*types.Func{}
+	for pass := 0; pass < 5; pass++ {
+		changed := false
+		for _, pk := range pkgs {
+			if _, skip := noInlinePkgs[pk.PkgPath]; skip {
+				continue
+			}
+			info := pk.TypesInfo
+			for _, f := range pk.Syntax {
+				if strings.HasSuffix(p.Fset.Position(f.Pos()).Filename, "_test.go") {
+					continue
+				}
+				astutil.Apply(f, func(c *astutil.Cursor) bool {
+					cl, ok := c.Node().(*ast.CallExpr)
+					if !ok {
+						return true
+					}
+					switch c.Parent().(type) {
+					case *ast.ExprStmt, *ast.GoStmt, *ast.DeferStmt:
+						return true
+					}
+					fn := staticCallee(info, cl)
+					if fn == nil {
+						return true
+					}
+					fd := declOf[fn.Origin()]
+					if fd == nil || fd.Name.IsExported() || len(fd.Body.List) != 1 {
+						return true
+					}
+					if _, isDef := info.Defs[fd.Name]; !isDef {
+						return true // another package
+					}
+					if fd.Pos() <= cl.Pos() && cl.End() <= fd.End() {
+						return true // recursion
+					}
+					rs, ok := fd.Body.List[0].(*ast.ReturnStmt)
+					if !ok || len(rs.Results) != 1 {
+						return true
+					}
+					hasLit := false
+					ast.Inspect(rs.Results[0], func(m ast.Node) bool {
+						if _, isLit := m.(*ast.FuncLit); isLit {
+							hasLit = true
+						}
+						return !hasLit
+					})
+					if hasLit {
+						return true
+					}
+					env := map[types.Object]ast.Expr{}
+					if fd.Recv != nil && len(fd.Recv.List) == 1 {
+						se, isSel := ast.Unparen(cl.Fun).(*ast.SelectorExpr)
+						if !isSel || !pureExpr(info, se.X) {
+							return true
+						}
+						if len(fd.Recv.List[0].Names) == 1 {
+							env[info.Defs[fd.Recv.List[0].Names[0]]] = se.X
+						}
+					}
+					i := 0
+					for _, fl := range fd.Type.Params.List {
+						if len(fl.Names) == 0 {
+							i++
+							continue
+						}
+						for _, nm := range fl.Names {
+							if i >= len(cl.Args) || !pureExpr(info, cl.Args[i]) {
+								return true
+							}
+							env[info.Defs[nm]] = cl.Args[i]
+							i++
+						}
+					}
+					if i != len(cl.Args) || cl.Ellipsis.IsValid() {
+						return true
+					}
+					clone := cloneWithSubst(info, rs.Results[0], env)
+					if clone == nil {
+						return true
+					}
+					par := &ast.ParenExpr{Lparen: cl.Pos(), X: clone, Rparen: cl.End()}
+					if tv, has := info.Types[cl]; has {
+						info.Types[par] = tv
+					}
+					c.Replace(par)
+					candidates[fd] = fn.Origin()
+					changed = true
+					return true
+				}, nil)
+			}
+		}
+		if !changed {
+			break
+		}
+	}
+	if len(candidates) == 0 {
+		return
+	}
+	used := map[*types.Func]bool{}
+	for _, pk := range pkgs {
+		info := pk.TypesInfo
+		for _, f := range pk.Syntax {
+			ast.Inspect(f, func(n ast.Node) bool {
+				if id, ok := n.(*ast.Ident); ok {
+					if fn, _ := info.Uses[id].(*types.Func); fn != nil {
+						used[fn.Origin()] = true
+					}
+				}
+				return true
+			})
+		}
+	}
+	for fd, fn := range candidates {
+		if !used[fn] {
+			inlinedAway[fd] = true
+		}
+	}
 }
